@@ -206,10 +206,16 @@ func indirectUseSpecs() []specCase {
 	// the injector with the superfluous item sits in the first of two injector files (or the last; or none: control)
 	for _, bad := range []int{3, 4} {
 		for swap := 0; swap < 2; swap++ {
-			bad, swap := bad, swap
-			g := &GraphSpec{}
-			g.custom = func(b *ir.Builder) *ir.Program { return twoFilesProgram(bad, swap == 1) }
-			out = append(out, specCase{fmt.Sprintf("C08/indirect/two-injector-files/bad=%d/last=%d", bad, swap), g})
+			for extra := 0; extra < 3; extra++ {
+				bad, swap, extra := bad, swap, extra
+				g := &GraphSpec{}
+				g.custom = func(b *ir.Builder) *ir.Program { return twoFilesProgramN(bad, swap == 1, extra) }
+				id := fmt.Sprintf("C08/indirect/two-injector-files/bad=%d/last=%d", bad, swap)
+				if extra > 0 {
+					id += fmt.Sprintf("/extra=%d", extra)
+				}
+				out = append(out, specCase{id, g})
+			}
 		}
 	}
 	// two separate wire.FieldsOf items over one struct, one of them (or one of three) entirely unused: the unused call
